@@ -71,7 +71,7 @@ var c20AllVectors = c20Vectors()
 
 // C20ContextsPerVector is how many tape-drawn contexts the thorough tier runs
 // for each enumerated fault vector.
-const C20ContextsPerVector = 6
+const C20ContextsPerVector = 300
 
 func init() {
 	Scenarios["C20"] = scenarioC20
@@ -95,7 +95,7 @@ func init() {
 		Assumptions: []string{"exhaustive over the fault dimension (vectors), sampled over contexts", "an entropy fault that the algorithm never reads far enough to meet (Ed25519, k beyond what is read) counts as ok for that call"},
 		Real:        []string{"github.com/veraison/go-cose (all Sign/Verify entry points, encoders)", "github.com/fxamacker/cbor/v2", "Go crypto"},
 		Stubs:       []string{"cose.Signer / cose.Verifier with injected failures", "HSM behind crypto.Signer (error, bad DER)", "entropy source (error at byte k, short reads)"},
-		QuickRuns:   10000, ThoroughRuns: len(c20AllVectors)*C20ContextsPerVector + 20000,
+		QuickRuns:   300000, ThoroughRuns: len(c20AllVectors)*C20ContextsPerVector + 200000,
 		EnumSpace: len(c20AllVectors), EnumRepeat: C20ContextsPerVector, EnumWhat: "fault vectors (entry point x n x per-call fault kind)",
 	}
 }
